@@ -62,6 +62,9 @@ func ParseLog(text string) {
 		msg := strings.SplitN(str, dat[0], 2)[1]
 		if len(msg) > 1 {
 			msg = msg[1:]
+		} else if msg == " " {
+			// an empty subject: only the blank that separates it from the date is left
+			msg = ""
 		}
 
 		currentCommit = CommitMessage{id[1], auth[1][1:], dat[0], msg, nil}
